@@ -54,6 +54,12 @@ def scenarios(ctx):
         if rng.random() < 0.4:
             w["stale_lists"] = True      # the list paths hold an earlier run's lists
         w["opts"] = o
+        if rng.random() < 0.25:
+            PW.add_decoys(rng, w)
+        if rng.random() < 0.3:
+            w["stale_phase"] = rng.choice(["PS", "HP"])    # the input VCF already carries unrelated phase statements
+        if rng.random() < 0.3:
+            w["gt_desc"] = True                            # unphased heterozygous genotypes written 1/0
         scs.append({"world": w})
     # ---- nested phase sets with a forced recombination behind the inner set (quartets) ----
     for i in range(60 if ctx.quick else 1500):
